@@ -23,7 +23,7 @@ MinLen(fmt) == IF fmt = "pdb" THEN 54 ELSE 44
 Least(S) == CHOOSE x \in S : \A y \in S : x <= y
 Slice(f, line) == Strip(Cut(line, f.start, f.start + f.w - 1))
 
-JudgeAtom(e, k, cum, fits) ==
+JudgeAtom(e, k, cum, fits, part) ==      \* part = "line": the text by the column table; "back": the values read
   LET g    == e.g0 + k - 1
       m    == MolOfC(cum, g)
       a    == e.atoms[k]
@@ -40,25 +40,29 @@ JudgeAtom(e, k, cum, fits) ==
       okb(i) == \/ b[R[i].name] = want[i]
                 \/ R[i].kind = "str" /\ b[R[i].name] \in Admissible(W[FieldIdx(W, R[i].name)], rec[R[i].name])
       badb == {i \in DOMAIN R : ~okb(i)}
-  IN IF Len(line) < MinLen(e.fmt) THEN "line-too-short"
+  IN IF part = "back" THEN
+       (IF badb # {} THEN "read-back: " \o R[Least(badb)].name \o " differs from what was written"
+        ELSE IF e.fmt = "pdb" /\ fits /\ b.mol # m THEN "read-back: atom landed in molecule " \o ToString(b.mol) \o " instead of " \o ToString(m)
+        ELSE "ok")
+     ELSE IF Len(line) < MinLen(e.fmt) THEN "line-too-short"
      ELSE IF badf # {} THEN
             LET f == W[Least(badf)] IN
             IF FitsW(txt(f), f.w) THEN "column-table: field " \o f.name \o " shifted or corrupted, columns hold '" \o Slice(f, line) \o "'"
             ELSE "column-table: overflowing field " \o f.name \o " not truncated to its own columns, they hold '" \o Slice(f, line) \o "'"
      ELSE IF \E c \in BlankCols(e.fmt) : Ch(line, c) # " " THEN "column-table: separator column not blank"
-     ELSE IF badb # {} THEN "read-back: " \o R[Least(badb)].name \o " differs from what was written"
-     ELSE IF e.fmt = "pdb" /\ fits /\ b.mol # m THEN "read-back: atom landed in molecule " \o ToString(b.mol) \o " instead of " \o ToString(m)
      ELSE "ok"
 
 JudgeAtoms(e) ==
   LET cum  == Cum(e.sizes)
       fits == Fits5(e.sizes)
-      bad  == {k \in DOMAIN e.atoms : JudgeAtom(e, k, cum, fits) # "ok"}
-  IN IF e.readerr # "" THEN "reader raised " \o e.readerr
-     ELSE IF Len(e.lines) # Len(e.atoms) THEN "atom lines missing in the file"
+      badl == {k \in DOMAIN e.atoms : JudgeAtom(e, k, cum, fits, "line") # "ok"}      \* the text alone, by the column table
+      bad  == {k \in DOMAIN e.atoms : JudgeAtom(e, k, cum, fits, "back") # "ok"}
+  IN IF Len(e.lines) # Len(e.atoms) THEN (IF e.readerr # "" THEN "round trip failed: " \o e.readerr ELSE "atom lines missing in the file")
+     ELSE IF badl # {} THEN "atom " \o ToString(e.g0 + Least(badl) - 1) \o ": " \o JudgeAtom(e, Least(badl), cum, fits, "line")
+     ELSE IF e.readerr # "" THEN "round trip failed: " \o e.readerr
      ELSE IF Len(e.back) # Len(e.atoms) THEN "atoms lost or invented on read"
      ELSE IF bad = {} THEN "ok"
-     ELSE "atom " \o ToString(e.g0 + Least(bad) - 1) \o ": " \o JudgeAtom(e, Least(bad), cum, fits)
+     ELSE "atom " \o ToString(e.g0 + Least(bad) - 1) \o ": " \o JudgeAtom(e, Least(bad), cum, fits, "back")
 
 RECURSIVE SumSeq(_)
 SumSeq(s) == IF s = <<>> THEN 0 ELSE Head(s) + SumSeq(Tail(s))
@@ -84,23 +88,26 @@ JudgePdbStruct(e) ==
       want  == {<<ser(Min(bd[1], bd[2])), ser(Max(bd[1], bd[2]))>> : bd \in SeqSet(e.bonds)}
       norm(S) == {<<Min(bd[1], bd[2]), Max(bd[1], bd[2])>> : bd \in S}
       badter == {m \in DOMAIN e.ters : ~JudgeTer(e.ters[m], TerSerialC(cum, m))}
-  IN IF e.readerr # "" THEN "reader raised " \o e.readerr
+  IN \* first the text alone, by the column tables
+     IF e.layout = <<>> THEN "round trip failed: " \o e.readerr
      ELSE IF SplitByTer(e.layout) # e.sizes THEN "TER records do not divide the file into the molecules of the system"
      ELSE IF ~LayoutOk(e.layout) THEN "record layout: unknown record, CONECT before the last atom, or no END at the end"
      ELSE IF Len(e.ters) \notin {Len(e.sizes), Len(e.sizes) - 1} THEN "TER count differs"
      ELSE IF badter # {} THEN "TER record " \o ToString(Least(badter)) \o " differs from the column table (serial " \o ToString(TerSerialC(cum, Least(badter))) \o ")"
+     ELSE IF fits /\ \E i \in DOMAIN ids : Len(ids[i]) < 2 \/ BAD \in SeqSet(ids[i]) THEN "CONECT record unreadable by the column table"
+     ELSE IF fits /\ pairs # want THEN
+            (IF pairs \subseteq want THEN "CONECT records miss bonds" ELSE "CONECT records name bonds that do not exist: "
+                 \o ToString(CHOOSE p \in pairs : p \notin want))
+     \* then what the reader returned
+     ELSE IF e.readerr # "" THEN "round trip failed: " \o e.readerr
      ELSE IF SumSeq(e.read_sizes) # SumSeq(e.sizes) THEN "read-back: number of atoms differs"
      ELSE IF ~fits THEN "ok"                         \* beyond five digits only the atoms themselves are promised
      ELSE IF e.read_sizes # e.sizes THEN "read-back: division into molecules differs"
-     ELSE IF \E i \in DOMAIN ids : Len(ids[i]) < 2 \/ BAD \in SeqSet(ids[i]) THEN "CONECT record unreadable by the column table"
-     ELSE IF pairs # want THEN
-            (IF pairs \subseteq want THEN "CONECT records miss bonds" ELSE "CONECT records name bonds that do not exist: "
-                 \o ToString(CHOOSE p \in pairs : p \notin want))
      ELSE IF norm(SeqSet(e.read_bonds)) # norm(SeqSet(e.bonds)) THEN "read-back: bonds differ from the bonds written"
      ELSE "ok"
 
 JudgeGroStruct(e) ==
-  IF e.readerr # "" THEN "reader raised " \o e.readerr
+  IF e.readerr # "" THEN "round trip failed: " \o e.readerr
   ELSE IF ParseInt(Strip(e.count_line)) # e.natoms THEN "atom count line differs"
   ELSE IF e.natomlines # e.natoms THEN "number of atom lines differs"
   ELSE IF e.nread # e.natoms THEN "read-back: number of atoms differs"
